@@ -73,7 +73,12 @@ def class_stages(case_seed, name, forced=None, regen=False):
     from PEPit import Point
     rng = random.Random(case_seed)
     kw = {}
-    if forced is not None:
+    if forced in ("empty", "A-only", "T-only"):
+        # zero-sample cases of the linear operator classes: declared but never evaluated; a LinearOperator used only
+        # through A.gradient (no sample of its transpose); only through A.T
+        kw = dict(nsamples=(0 if forced != "A-only" else rng.choice([1, 2])), stationary_at="none",
+                  t_samples=(rng.choice([1, 2]) if forced == "T-only" else 0))
+    elif forced is not None:
         kw = dict(stationary_at=forced, nsamples=rng.choice([2, 3, 4]))
     func, ctx = K.build_function(rng, name, **kw)
     resolve = rng.random() < 0.2
@@ -235,6 +240,13 @@ def case_list(seed, n_class, n_raw, classes=None):
                             forced=forced[k] if k < len(forced) else None, regen=(k % 3 == 2)))
     for _ in range(n_raw):
         out.append(dict(kind="raw", cls=None, case_seed=rng.getrandbits(48)))
+    # zero-sample cases of the classes that carry an LMI (no 0 x 0 LMI may be generated: /repo 818e4b8)
+    for name, modes in (("LinearOperator", ("empty", "A-only", "T-only")), ("SymmetricLinearOperator", ("empty",)),
+                        ("SkewSymmetricLinearOperator", ("empty",)), ("SmoothStronglyConvexQuadraticFunction", ("empty",))):
+        if name in classes:
+            for mode in modes:
+                for regen in (False, True):
+                    out.append(dict(kind="class", cls=name, case_seed=rng.getrandbits(48), forced=mode, regen=regen))
     return out
 
 
@@ -608,7 +620,13 @@ def check_reference(name, func, rng, n_val=2):
                                         diagonal=bool(same), same_x_g=bool(aa.tr[0] is b.tr[0] and aa.tr[1] is b.tr[1]),
                                         reference=str(r)))
         # LMIs
-        lm = REF_LMI.get(name, [])
+        # one LMI per documented matrix condition over a NON-EMPTY list of samples; never a 0 x 0 matrix
+        for k, m in enumerate(func.list_of_class_psd):
+            if 0 in tuple(m.matrix_of_expressions.shape) or m.matrix_of_expressions.size == 0:
+                out.append(dict(kind="empty-lmi-generated", lmi=k, shape=list(m.matrix_of_expressions.shape)))
+        if out:
+            break
+        lm = [(lname, entry) for lname, entry in REF_LMI.get(name, []) if lists[lname]]
         if len(func.list_of_class_psd) != len(lm):
             out.append(dict(kind="lmi-count", generated=len(func.list_of_class_psd), reference=len(lm)))
         else:
